@@ -31,7 +31,9 @@ def _applicable(action, tmpl):
     t = G.TEMPLATES[tmpl]
     if action.startswith("att_"):
         return t["type"] == "markdown"
-    if action in ("rerun", "ec", "out_edit", "out_edit2", "out_clear", "out_add", "out_del",
+    if action in ("tag_front", "tag_back"):
+        return bool(t.get("tags"))
+    if action in ("rerun", "ec", "out_edit", "out_edit2", "out_clear", "out_add", "out_add2", "out_del",
                   "out_ptr", "to_md"):
         if t["type"] != "code":
             return False
@@ -172,7 +174,7 @@ def make_unrelated(ta, tb, ids=(0, 1), files=0, props=("C01",), known=(),
 
 
 ALL_TEMPLATES = ["codeA", "codeB", "codeA0", "codeErr", "codeDisp", "codeRes2", "codeJobj",
-                 "codeJlol", "codeJloo", "codeJsc", "codeS", "md", "mdAtt", "raw"]
+                 "codeJlol", "codeJloo", "codeJsc", "codeS", "md", "mdAtt", "raw", "codeT"]
 
 
 def shards(tier, props, known, files=None, lite=False):
